@@ -1,6 +1,7 @@
 package main
 
 import (
+	"encoding/json"
 	"bytes"
 	"context"
 	"crypto/hmac"
@@ -64,6 +65,7 @@ type DialRun struct {
 	Open    bool
 	Clear   []byte
 	Logs    []string
+	LogsWhole []string
 	Panic   interface{}
 	Client  *mail.Client
 	ScramNonce string
@@ -100,8 +102,9 @@ func tlsMaterial() {
 
 // capturing logger
 type capLogger struct {
-	mu   sync.Mutex
-	recs []string
+	mu    sync.Mutex
+	recs  []string
+	whole []string // every record as a logger that keeps the complete value would see it (%+v and JSON)
 }
 
 func (l *capLogger) rec(lg maillog.Log) {
@@ -113,6 +116,8 @@ func (l *capLogger) rec(lg maillog.Log) {
 		dir = "S "
 	}
 	l.recs = append(l.recs, dir+text)
+	js, _ := json.Marshal(lg)
+	l.whole = append(l.whole, fmt.Sprintf("%+v", lg)+" "+string(js))
 }
 func (l *capLogger) Debugf(lg maillog.Log) { l.rec(lg) }
 func (l *capLogger) Infof(lg maillog.Log)  { l.rec(lg) }
@@ -166,6 +171,7 @@ func collectDial(run *DialRun, srv *RefServer, conn *ScriptConn, logger *capLogg
 	}
 	logger.mu.Lock()
 	run.Logs = append([]string(nil), logger.recs[from:]...)
+	run.LogsWhole = append([]string(nil), logger.whole[from:]...)
 	logger.mu.Unlock()
 }
 
@@ -460,6 +466,27 @@ func cbTokens(run *DialRun) string {
 
 // RunAuthFirst drives the smtp package directly: smtp.NewClient on the scripted connection and then
 // Client.Auth as the FIRST command (the implicit EHLO happens inside Auth). No TLS.
+// directAuth: the smtp.Auth value for the scenario's mechanism and credentials
+func directAuth(sc *DialScenario) smtp.Auth {
+	switch sc.AuthType {
+	case "PLAIN":
+		return smtp.PlainAuth("", sc.User, sc.Pass, sc.Host, false)
+	case "PLAIN-NOENC":
+		return smtp.PlainAuth("", sc.User, sc.Pass, sc.Host, true)
+	case "LOGIN":
+		return smtp.LoginAuth(sc.User, sc.Pass, sc.Host, false)
+	case "LOGIN-NOENC":
+		return smtp.LoginAuth(sc.User, sc.Pass, sc.Host, true)
+	case "CRAM-MD5":
+		return smtp.CRAMMD5Auth(sc.User, sc.Pass)
+	case "XOAUTH2":
+		return smtp.XOAuth2Auth(sc.User, sc.Pass)
+	case "SCRAM-SHA-1":
+		return smtp.ScramSHA1Auth(sc.User, sc.Pass)
+	}
+	return smtp.ScramSHA256Auth(sc.User, sc.Pass)
+}
+
 func RunAuthFirst(sc *DialScenario) *DialRun {
 	tlsMaterial()
 	run := &DialRun{}
@@ -507,25 +534,7 @@ func RunAuthFirst(sc *DialScenario) *DialRun {
 				return SrvAction{}, false
 			}
 		}
-		var a smtp.Auth
-		switch sc.AuthType {
-		case "PLAIN":
-			a = smtp.PlainAuth("", sc.User, sc.Pass, sc.Host, false)
-		case "PLAIN-NOENC":
-			a = smtp.PlainAuth("", sc.User, sc.Pass, sc.Host, true)
-		case "LOGIN":
-			a = smtp.LoginAuth(sc.User, sc.Pass, sc.Host, false)
-		case "LOGIN-NOENC":
-			a = smtp.LoginAuth(sc.User, sc.Pass, sc.Host, true)
-		case "CRAM-MD5":
-			a = smtp.CRAMMD5Auth(sc.User, sc.Pass)
-		case "XOAUTH2":
-			a = smtp.XOAuth2Auth(sc.User, sc.Pass)
-		case "SCRAM-SHA-1":
-			a = smtp.ScramSHA1Auth(sc.User, sc.Pass)
-		default:
-			a = smtp.ScramSHA256Auth(sc.User, sc.Pass)
-		}
+		a := directAuth(sc)
 		if err := cl.Auth(a); err != nil {
 			// same wrapping as mail.Client.auth, so that the error classification is shared
 			run.Err = fmt.Errorf("SMTP AUTH failed: %w", err)
